@@ -13,6 +13,7 @@ package main
 import (
 	"encoding/json"
 	"fmt"
+	"net/http"
 	"net/http/httptest"
 	"strings"
 	"time"
@@ -63,6 +64,8 @@ type wsub struct {
 	heldB []string
 	heldL []logref
 	dead  bool
+	hold  bool // not to be drained right now (its server side is parked in the driver's hands)
+	wake  bool // the next drain is the lost-wakeup oracle
 }
 
 type wireMsg struct {
@@ -81,6 +84,16 @@ func (r *run) server() *subServer {
 		s := subscriptions.New(r.repo, []string{"*"}, 1000, nopPool{}, true)
 		router := mux.NewRouter()
 		s.Mount(router, "/subscriptions")
+		if havePipeHook {
+			// the same pipe, over a reader of the handler's own making that the driver wraps (see wakeup)
+			router.HandleFunc("/verifpipe/{kind}", func(w http.ResponseWriter, req *http.Request) {
+				pos, err := thor.ParseBytes32(req.URL.Query().Get("pos"))
+				must(err)
+				inner, err := newHookReader(r.ss, mux.Vars(req)["kind"], pos)
+				must(err)
+				_ = servePiped(r.ss, w, req, &idleReader{inner: inner, idle: r.idleCh, resume: r.resumeCh})
+			})
+		}
 		r.ss = &subServer{srv: httptest.NewServer(router), subs: s}
 	}
 	return r.ss
@@ -136,9 +149,11 @@ func (r *run) quiet() {
 func isLogKind(k string) bool { return k == "transfer" || k == "event" }
 
 // startSub opens a websocket subscription at ?pos=<id of pos> (pos must not be above best: the handler refuses that).
-func (r *run) startSub(kind string, pos *blk) {
+func (r *run) startSub(kind string, pos *blk) { r.startSubAt("/subscriptions/", kind, pos) }
+
+func (r *run) startSubAt(path, kind string, pos *blk) *wsub {
 	ss := r.server()
-	url := "ws" + strings.TrimPrefix(ss.srv.URL, "http") + "/subscriptions/" + kind + "?pos=" + pos.id.String()
+	url := "ws" + strings.TrimPrefix(ss.srv.URL, "http") + path + kind + "?pos=" + pos.id.String()
 	conn, resp, err := websocket.DefaultDialer.Dial(url, nil)
 	if err != nil {
 		if resp == nil {
@@ -146,7 +161,7 @@ func (r *run) startSub(kind string, pos *blk) {
 		}
 		// the handler answered, and refused a position that is known and not above best
 		r.fail("subscribe "+kind, fmt.Errorf("%v (http %d)", err, resp.StatusCode))
-		return
+		return nil
 	}
 	r.subSeq++
 	s := &wsub{id: 1000 + r.subSeq, kind: kind, conn: conn, ch: make(chan []byte, 4096), pos: pos}
@@ -170,6 +185,54 @@ func (r *run) startSub(kind string, pos *blk) {
 	r.st.Subs++
 	r.emit(trace.Ev{"e": "SubStart", "r": s.id, "kind": kind, "pos": pos.name, "held": append([]string{}, s.heldB...)})
 	r.drainSub(s)
+	return s
+}
+
+// idleReader lets the driver place a block import exactly between a Read that found nothing more and the pipe going to
+// sleep: the first time the wrapped reader reports "nothing more" it tells the driver and waits for its go-ahead.
+type idleReader struct {
+	inner  hookReader
+	idle   chan struct{}
+	resume chan struct{}
+	fired  bool
+}
+
+func (ir *idleReader) Read() ([]any, bool, error) {
+	msgs, more, err := ir.inner.Read()
+	if err == nil && !more && len(msgs) == 0 && !ir.fired {
+		ir.fired = true
+		ir.idle <- struct{}{}
+		<-ir.resume
+	}
+	return msgs, more, err
+}
+
+// wakeup: a subscription that has caught up; a new best block is stored after its Read saw nothing more and before its
+// pipe starts waiting; then NO further block. The subscriber must still be told about the new best block (the pipe's
+// waiter exists before the Read, so the broadcast is not lost). The bound is wall clock, but generous: three waits of
+// 7 s for one message on a loopback connection of an otherwise idle process, with a clock-free probe of the chain reader
+// in between.
+func (r *run) wakeup(kind string) {
+	s := r.startSubAt("/verifpipe/", kind, r.best)
+	if s == nil || s.dead {
+		return
+	}
+	select {
+	case <-r.idleCh:
+	case <-time.After(60 * time.Second):
+		must(fmt.Errorf("the wrapped subscription reader never reported an empty read"))
+	}
+	s.hold = true
+	n := r.addBlock(r.best, nil, nil, true)
+	s.hold = false
+	r.resumeCh <- struct{}{}
+	if n == nil {
+		return
+	}
+	r.st.Wakeups++
+	s.wake = true
+	r.drainSub(s)
+	s.wake = false
 }
 
 // expected is the driver's own arithmetic on its copy of the tree: blocks from pos back to the fork point with best
@@ -197,7 +260,7 @@ func (r *run) expected(pos *blk) (out []*blk, obs []bool) {
 }
 
 func (r *run) drainSub(s *wsub) {
-	if s.dead {
+	if s.dead || s.hold {
 		return
 	}
 	eb, eo := r.expected(s.pos)
@@ -216,10 +279,36 @@ func (r *run) drainSub(s *wsub) {
 	for n := 0; n < want; n++ {
 		var data []byte
 		var ok, timedOut bool
-		select {
-		case data, ok = <-s.ch:
-		case <-deadline:
-			timedOut = true
+		if s.wake {
+			// eventual delivery on a quiescent chain: look three times, 7 s each
+			for try := 0; try < 3 && !ok; try++ {
+				select {
+				case data, ok = <-s.ch:
+				case <-time.After(7 * time.Second):
+					timedOut = true
+				}
+				if ok {
+					timedOut = false
+				} else if !timedOut {
+					break // closed
+				}
+			}
+			if timedOut {
+				// the chain reader itself, asked without a clock, has the block ready (logged and judged): the message
+				// was due and the pipe sleeps
+				s.dead = true
+				probe := r.startReader(s.pos)
+				r.step(probe)
+				probe.done = true
+				r.emit(trace.Ev{"e": "SubLost", "r": s.id, "kind": s.kind, "pos": s.pos.name, "best": r.best.name, "waited_s": 21})
+				return
+			}
+		} else {
+			select {
+			case data, ok = <-s.ch:
+			case <-deadline:
+				timedOut = true
+			}
 		}
 		if timedOut {
 			// Wall clock only: nothing the server sent is wrong. Ask the code under test directly, without a clock: a
